@@ -13,6 +13,7 @@
     drop_nested_unbalanced fragments_looked_up_not_extracted nested_directives_raise
     default_cfg_include_attrs i18n_directives_sort_first contexted_table
     lookups_subset_extract_partial choose_identity msg_lookup_extracted identity_transparent_msg
+    choose_lookup_extracted choose_outer_text_not_looked_up
 -/
 import Genshi.Lemmas.I18nTree
 import Genshi.Lemmas.I18nStarts
@@ -20,6 +21,7 @@ import Genshi.Lemmas.I18nLookups
 import Genshi.Lemmas.I18nChoose
 import Genshi.Lemmas.I18nMsgLookup
 import Genshi.Lemmas.I18nLookups2
+import Genshi.Lemmas.I18nChooseLookup
 import Genshi.Model.I18nExtract
 namespace Genshi.Props.C19
 open Genshi Genshi.I18n
@@ -198,6 +200,68 @@ example : msgId [] (trList Cfg.default ⟨fun _ _ s => s ++ ['!']⟩ [] false tr
       [.start ⟨[], ['p']⟩ [(⟨[], ['t','i','t','l','e']⟩, .str ['T'])], .text ['H','i',' '],
        .start ⟨[], ['b']⟩ [], .text ['x'], .end_ ⟨[], ['b']⟩, .end_ ⟨[], ['p']⟩]) =
     .ok (some ['H','i',' ','[','1',':','x',']']) := by decide +kernel
+
+/-- **lookups_subset_extract, plural choice.**  For
+    `<t i18n:choose="n; ps"> pre <ts i18n:singular="">cS</ts> mid <tp i18n:plural="">cP</tp> post </t>`
+    whose `pre`, `mid`, `post` are white space, comments or code blocks (other text there:
+    finding C19-choose-outer-text, `choose_outer_text_not_looked_up`) and **arbitrary** branch
+    contents (nested elements, expressions, directive-carrying elements): whenever
+    `ChooseDirective.extract` returns messages `ms`, they hold two ids `idS`, `idP` such that
+    `ChooseDirective.__call__` consults the catalogue at `ngettext(idS, idP, numeral)` and
+    nowhere else — two catalogues that agree there give the same output (when the singular form
+    is selected the plural branch is not even read and the empty string stands for `idP`).
+    `extract` files outer events and branch content into one buffer per form, `__call__` gives
+    each branch a fresh buffer; the strings differ by white space `format()` strips.  (The
+    fragment look-ups the translation pass makes inside the branches are finding C19-fragments.) -/
+theorem choose_lookup_extracted (cfg : Cfg) (params : List Str) (st : Bool) (cs xs : List Str) (pl : Bool)
+    (t t' ts tp : QName) (a as ap : TAttrs) (pre mid post cS cP : List TEvent)
+    (hpre : ∀ e ∈ pre, outerEv e = true) (hmid : ∀ e ∈ mid, outerEv e = true) (hpost : ∀ e ∈ post, outerEv e = true)
+    (ms : List Message)
+    (hex : chooseExtract cfg params st cs xs
+      (.start t a :: ((pre ++ .sub [.singular] (.start ts as :: (cS ++ [.end_ ts])) ::
+        (mid ++ .sub [.plural] (.start tp ap :: (cP ++ [.end_ tp])) :: post)) ++ [.end_ t'])) = .ok ms) :
+    ∃ idS idP, idS ∈ idsOf ms ∧ idP ∈ idsOf ms ∧
+      ∀ (ngt ngt' : Str → Str → Str),
+        ngt idS (if pl then idP else []) = ngt' idS (if pl then idP else []) →
+        chooseCall params pl ngt
+          (.start t a :: ((pre ++ .sub [.singular] (.start ts as :: (cS ++ [.end_ ts])) ::
+            (mid ++ .sub [.plural] (.start tp ap :: (cP ++ [.end_ tp])) :: post)) ++ [.end_ t'])) =
+        chooseCall params pl ngt'
+          (.start t a :: ((pre ++ .sub [.singular] (.start ts as :: (cS ++ [.end_ ts])) ::
+            (mid ++ .sub [.plural] (.start tp ap :: (cP ++ [.end_ tp])) :: post)) ++ [.end_ t'])) :=
+  chooseCall_lookup_extracted cfg params st cs xs pl t t' ts tp a as ap pre mid post cS cP hpre hmid hpost ms hex
+
+/-- `<div i18n:choose="n; n"> <p i18n:singular="">One ${n} <b py:if="c">coin</b></p> <!-- c -->
+    <p i18n:plural="">${n} coins</p> </div>`: extraction succeeds, with the two ids -/
+example :
+    chooseExtract Cfg.default [['n']] true [] []
+      (.start ⟨[], ['d']⟩ [] :: (([.text [' ']] ++
+        .sub [.singular] (.start ⟨[], ['p']⟩ [] :: ([.text ['O','n','e',' '], .expr 0 [], .text [' '],
+            .sub [.other ['i','f']] [.start ⟨[], ['b']⟩ [], .text ['c','o','i','n'], .end_ ⟨[], ['b']⟩]] ++ [.end_ ⟨[], ['p']⟩])) ::
+        ([.text [' '], .other ['c'], .text [' ']] ++
+        .sub [.plural] (.start ⟨[], ['p']⟩ [] :: ([.expr 0 [], .text [' ','c','o','i','n','s']] ++ [.end_ ⟨[], ['p']⟩])) ::
+        [.text [' ']])) ++ [.end_ ⟨[], ['d']⟩])) =
+    .ok [⟨some ngettextName, .many [some ['O','n','e',' ','%','(','n',')','s',' ','[','1',':','c','o','i','n',']'],
+                                     some ['%','(','n',')','s',' ','c','o','i','n','s']], []⟩] := by decide +kernel
+
+/-- C19-choose-outer-text: with text outside the branches (`x` before the singular branch)
+    the extracted singular id is `x One` while rendering asks the catalogue for `One`: the
+    hypothesis on `pre` / `mid` / `post` of `choose_lookup_extracted` cannot be dropped. -/
+theorem choose_outer_text_not_looked_up :
+    chooseExtract Cfg.default [] true [] []
+      [.start ⟨[], ['d']⟩ [], .text ['x',' '],
+       .sub [.singular] [.start ⟨[], ['p']⟩ [], .text ['O','n','e'], .end_ ⟨[], ['p']⟩],
+       .sub [.plural] [.start ⟨[], ['p']⟩ [], .text ['M','a','n','y'], .end_ ⟨[], ['p']⟩],
+       .end_ ⟨[], ['d']⟩] =
+      .ok [⟨some ngettextName, .many [some ['x',' ','O','n','e'], some ['x',' ','M','a','n','y']], []⟩] ∧
+    chooseCall [] false (fun s _ => if s = ['O','n','e'] then ['U','n','o'] else s)
+      [.start ⟨[], ['d']⟩ [], .text ['x',' '],
+       .sub [.singular] [.start ⟨[], ['p']⟩ [], .text ['O','n','e'], .end_ ⟨[], ['p']⟩],
+       .sub [.plural] [.start ⟨[], ['p']⟩ [], .text ['M','a','n','y'], .end_ ⟨[], ['p']⟩],
+       .end_ ⟨[], ['d']⟩] =
+      some (.ok [.start ⟨[], ['d']⟩ [], .text ['x',' '],
+                 .start ⟨[], ['p']⟩ [], .text ['U','n','o'], .end_ ⟨[], ['p']⟩, .end_ ⟨[], ['d']⟩]) := by
+  refine ⟨by decide +kernel, by decide +kernel⟩
 
 /-! ## the message format: `parse_msg`, `MessageBuffer`, `MsgDirective` -/
 
